@@ -165,6 +165,8 @@ def finish(report, engine, out_dir=None, print_=print):
             'known_findings': sorted(seen_known),
             'repo': engine.repo,
             'renamed_functions_recognised': dict(engine.prog.renamed),
+            'renamed_attributes_recognised': dict(getattr(
+                engine.prog, 'renamed_attrs', {})),
         },
         'assumptions': report.assumptions,
         'wall_s': round(time.time() - report.t0 + engine.build_s, 3),
